@@ -43,7 +43,9 @@
 #include "QXmppVCardIq.h"
 #include "QXmppVersionIq.h"
 #include "Stream.h"
+#include "clientrig.h"
 #include "enumctx.h"
+#include "managers.h"
 
 #include <QFile>
 
@@ -840,6 +842,79 @@ struct C02 {
     }
 };
 
+
+// ----------------------------------------------------------------------------------------- C02, connected client
+// A real QXmppClient with every bundled manager, logged in over loopback TCP; hostile elements arrive as stream elements.
+struct ClientSession {
+    int worker;
+    std::unique_ptr<ClientRig> rig;
+    int sessions = 0;
+
+    bool open()
+    {
+        rig.reset();
+        rig = std::make_unique<ClientRig>(worker, true);
+        for (int i = NDEFAULT; i < int(factories().size()); ++i) {
+            rig->client->addExtension(factories()[size_t(i)].make(rig->client.get()));
+        }
+        LoginOptions lo;
+        lo.offerSm = false;
+        ++sessions;
+        if (!rig->listen() || !rig->connectClient(rig->baseConfig()) || !rig->login(lo)) {
+            return false;
+        }
+        rig->sync();
+        return rig->client->isConnected();
+    }
+
+    bool usable() const
+    {
+        return rig && rig->error.isEmpty() && rig->client->isConnected() && rig->csock()->state() == QAbstractSocket::ConnectedState &&
+            rig->csock()->mode() == QSslSocket::UnencryptedMode && rig->server.peer() && rig->server.peer()->state() == QAbstractSocket::ConnectedState;
+    }
+
+    // returns a problem description or empty
+    QString inject(const QByteArray &element, QByteArray *written)
+    {
+        if (rig && !usable() && qEnvironmentVariableIsSet("VERIF_DEBUG")) {
+            fprintf(stderr, "session lost: err=%s connected=%d cstate=%d mode=%d peer=%d events=%s\n", qPrintable(rig->error), rig->client->isConnected(), int(rig->csock()->state()), int(rig->csock()->mode()),
+                    rig->server.peer() ? int(rig->server.peer()->state()) : -1, qPrintable(rig->events.join(QLatin1Char(';')).right(200)));
+        }
+        if (!usable() && !open()) {
+            return QStringLiteral("INTERNAL: cannot establish a session: ") + (rig ? rig->error : QString());
+        }
+        const auto items = rig->serverSend(element);
+        for (const auto &it : items) {
+            if (it.trimmed().isEmpty() || it.startsWith("<?xml") || it.startsWith("<stream:stream") || it.startsWith("</stream:stream")) {
+                continue;
+            }
+            written->append(it);
+            QDomDocument d;
+            if (parseDoc(it, &d, true).isNull()) {
+                return QStringLiteral("client-output-not-well-formed");
+            }
+        }
+        return {};
+    }
+};
+
+// the forms in which one hostile element reaches a connected client
+QList<QPair<QString, QByteArray>> carriers(const QDomElement &el, const QByteArray &bytes, int n)
+{
+    QList<QPair<QString, QByteArray>> out;
+    const QString tag = el.tagName();
+    out << qMakePair(QStringLiteral("top-level"), bytes);
+    if (el.namespaceURI() == QLatin1String("jabber:client") && (tag == QLatin1String("iq") || tag == QLatin1String("message") || tag == QLatin1String("presence"))) {
+        return out;
+    }
+    const QByteArray id = "inj" + QByteArray::number(n);
+    out << qMakePair(QStringLiteral("in-message"), "<message from='contact@example.net/r' to='user@example.org/r' id='" + id + "' type='chat'>" + bytes + "</message>");
+    out << qMakePair(QStringLiteral("in-iq-set"), "<iq from='contact@example.net/r' to='user@example.org/r' id='" + id + "' type='set'>" + bytes + "</iq>");
+    out << qMakePair(QStringLiteral("in-iq-result"), "<iq from='example.org' id='qxmpp" + QByteArray::number(1 + n % 6) + "' type='result'>" + bytes + "</iq>");
+    out << qMakePair(QStringLiteral("in-presence"), "<presence from='contact@example.net/r' to='user@example.org/r'>" + bytes + "</presence>");
+    return out;
+}
+
 }  // namespace
 
 int main(int argc, char **argv)
@@ -905,7 +980,7 @@ mainLoop:
     // violation and summary lines (the coordinator adds up all summary lines of a shard).
     C02 c2 { ctx, reg, {}, 0 };
     QSet<int> nestSeeds;   // deep nesting exercises recursion per parser: once per distinct root element kind is enough
-    if (engine == QLatin1String("c02")) {
+    if (engine.startsWith(QLatin1String("c02"))) {
         c2.buildPool(seeds);
         QSet<QString> roots;
         for (int si = 0; si < int(seeds.size()); ++si) {
@@ -948,6 +1023,45 @@ mainLoop:
                             }
                         }
                     }
+                } else if (engine == QLatin1String("c02c")) {
+                    C02 cc { child, reg, c2.childPool, nestSeeds.contains(si) || only >= 0 ? 0 : -1 };
+                    auto ms = cc.mutants(root, ctx.thorough());
+                    ms.prepend(qMakePair(QStringLiteral("seed"), domToBytes(root)));
+                    ClientSession cs { ctx.shard };
+                    int n = 0;
+                    for (const auto &m : std::as_const(ms)) {
+                        QDomDocument dm;
+                        const auto el = parseDoc(m.second, &dm, true);
+                        if (el.isNull()) {
+                            continue;
+                        }
+                        const auto forms = carriers(el, domToBytes(el), n++);
+                        for (const auto &f : forms) {
+                            if (!ctx.thorough() && f.first != QLatin1String("top-level") && m.first.startsWith(QLatin1String("attr-")) && !m.first.contains(QLatin1String("=aaaaaaaaaaaa:")) && !m.first.contains(QLatin1String("=:"))) {
+                                continue;   // quick: wrapped forms for structural mutants, dropped/empty/huge attributes only
+                            }
+                            marker(si, QStringLiteral("client"), f.first + QLatin1Char('/') + m.first);
+                            ++child.evaluations;
+                            ++child.nontrivial;
+                            QByteArray written;
+                            const auto problem = cs.inject(f.second, &written);
+                            if (problem.startsWith(QLatin1String("INTERNAL"))) {
+                                fprintf(stderr, "%s\n", qPrintable(problem));
+                                _exit(4);
+                            }
+                            if (!written.isEmpty()) {
+                                child.count(QStringLiteral("injections_answered"));
+                            }
+                            if (!problem.isEmpty()) {
+                                const QString key = QStringLiteral("C02/%1:client:%2:%3").arg(problem, f.first, m.first.section(QLatin1Char(':'), 0, 0).section(QLatin1Char('='), 0, 0));
+                                auto cj = caseJson(QStringLiteral("c02c-crash"), si, QStringLiteral("client"), f.first + QLatin1Char('/') + m.first, f.second);
+                                cj[QStringLiteral("key")] = key;
+                                child.violation(key, QStringLiteral("connected client, mutant '%1' of seed %2 as %3: %4; client wrote: %5").arg(m.first).arg(si).arg(f.first, problem, QString::fromUtf8(written.left(300))), cj);
+                            }
+                        }
+                    }
+                    child.count(QStringLiteral("client_sessions"), cs.sessions);
+                    cs.rig.reset();
                 } else {
                     C02 cc { child, reg, c2.childPool, nestSeeds.contains(si) || only >= 0 ? 0 : -1 };
                     if (nestSeeds.contains(si)) {
